@@ -228,4 +228,48 @@ def lastVal {V : Type} [Zero V] (d : Dict V) (n : String) : V := lv n 0 d
 /-- abstraction: the name → value map a state stands for -/
 def abs {V : Type} [Zero V] (s : State V) (n : String) : V := lastVal s.items n
 
+
+/-! ### copies of a model, several live instances
+
+`copy.deepcopy(model)` (and unpickling) go through `DeterministicOde.__getstate__` / `__setstate__`: `__getstate__`
+copies `__dict__` (dropping the compiled functions), deepcopy copies the values - among them `_parameters`, `_paramList`
+and `_paramValue` -, `__setstate__` does `self.__dict__.update(state)` and trips the recompile flags.  As far as the
+binding of values is concerned the copy therefore starts in the SAME state as the original, and is independent of it
+afterwards. -/
+
+/-- `__setstate__`.  `rebuild = false`: the code as written (the restored object holds the copied `_paramValue`).
+`rebuild = true`: a `__setstate__` that rebuilds `_paramValue` from `list(self._parameters.values())`, i.e. in the
+INSERTION order of the map (kept for `Pygom.C09.setstate_rebuild_counterexample`). -/
+def restore {V : Type} (rebuild : Bool) (s : State V) : State V :=
+  if rebuild then { s with pv := match s.dict with | some d => d.map Prod.snd | Option.none => s.pv } else s
+
+inductive MOp (V : Type)
+  | assign (i : Nat) (op : Op V)
+  | clone (i : Nat)
+  deriving Repr
+
+def mstep {V : Type} [Zero V] (atomic rebuild : Bool) (sys : List (State V)) : MOp V → List (State V) × Option Err
+  | .assign i op =>
+    match sys[i]? with
+    | some s => let r := step atomic s op; (sys.set i r.1, r.2)
+    | Option.none => (sys, Option.none)
+  | .clone i =>
+    match sys[i]? with
+    | some s => (sys ++ [restore rebuild s], Option.none)
+    | Option.none => (sys, Option.none)
+
+def mrun {V : Type} [Zero V] (atomic rebuild : Bool) (sys : List (State V)) (ops : List (MOp V)) : List (State V) :=
+  ops.foldl (fun sys op => (mstep atomic rebuild sys op).1) sys
+
+
+/-- what the driver reports: after each operation the state of the instance it touched (for `clone`: the new one) -/
+def mtrace {V : Type} [Zero V] (atomic rebuild : Bool) : List (State V) → List (MOp V) → List (Option (State V) × Option Err)
+  | _, [] => []
+  | sys, op :: rest =>
+    let r := mstep atomic rebuild sys op
+    let touched : Nat := match op with
+      | .assign i _ => i
+      | .clone _ => r.1.length - 1
+    (r.1[touched]?, r.2) :: mtrace atomic rebuild r.1 rest
+
 end Pygom.Params
